@@ -590,8 +590,10 @@ def _append_nans(result, axis, first=False):
     """
     shape = list(result.shape)
     shape[axis] = 1
-    nan_slice = np.empty(shape, dtype=result.dtype) # make a slice (result may be empty along axis) ...
-    nan_slice.fill(np.nan) # ...filled with NaNs
+    # make a slice (result may be empty along axis) filled with NaNs: integer / boolean results need a float slice
+    dtype = result.dtype if result.dtype.kind in 'fcO' else float
+    nan_slice = np.empty(shape, dtype=dtype)
+    nan_slice.fill(np.nan)
 
     # Insert as first element
     if first:
